@@ -228,11 +228,13 @@ func init() {
 
 // EffectSites lists the call sites of mutators in moq's packages.
 type EffectSite struct {
-	Fn     string
-	Callee string
-	Pos    string
-	Call   *ast.CallExpr
-	InFn   *types.Func
+	PkgPath string // the package the site is written in
+	Value   bool   // the mutator is used as a value, not called
+	Fn      string
+	Callee  string
+	Pos     string
+	Call    *ast.CallExpr
+	InFn    *types.Func
 }
 
 func EffectSites(prog *load.Program, pkgs ...string) []EffectSite {
@@ -263,13 +265,13 @@ func EffectSites(prog *load.Program, pkgs ...string) []EffectSite {
 					switch x := n.(type) {
 					case *ast.CallExpr:
 						if fn, ok := typeutil.Callee(pk.TypesInfo, x).(*types.Func); ok && Mutators[fn.FullName()] {
-							out = append(out, EffectSite{Fn: pk.Name + "." + name, Callee: fn.FullName(), Pos: prog.Pos(x.Pos()), Call: x, InFn: owner})
+							out = append(out, EffectSite{PkgPath: pk.PkgPath, Fn: pk.Name + "." + name, Callee: fn.FullName(), Pos: prog.Pos(x.Pos()), Call: x, InFn: owner})
 						}
 					case *ast.SelectorExpr:
 						// a mutator used as a value (stored, passed on) escapes the call-site rule
 						if fn, ok := pk.TypesInfo.Uses[x.Sel].(*types.Func); ok && Mutators[fn.FullName()] {
 							if !isCallee(d, x) {
-								out = append(out, EffectSite{Fn: pk.Name + "." + name, Callee: fn.FullName() + " (used as a value)", Pos: prog.Pos(x.Pos()), InFn: owner})
+								out = append(out, EffectSite{PkgPath: pk.PkgPath, Fn: pk.Name + "." + name, Callee: fn.FullName() + " (used as a value)", Value: true, Pos: prog.Pos(x.Pos()), InFn: owner})
 							}
 						}
 					}
@@ -299,8 +301,11 @@ func isCallee(root ast.Node, sel *ast.SelectorExpr) bool {
 func CheckEffectSites(run *core.Run, prog *load.Program) {
 	allowed := map[string]bool{fnRemove: true, fnMkdirAll: true, fnWriteFile: true}
 	for _, s := range EffectSites(prog) {
-		inMain := s.InFn != nil && s.InFn.Pkg() != nil && s.InFn.Pkg().Path() == load.PkgMain
-		run.Check("G-EFF/who-may-call", s.Fn+"→"+s.Callee, s.Pos, inMain && allowed[s.Callee], fmt.Sprintf("%s calls %s: the only file-system/process/environment mutators allowed in moq's packages are os.Remove, os.MkdirAll and os.WriteFile, in package main", s.Fn, s.Callee))
+		// in package main a mutator may also be held in a variable or field (a seam for tests): where it is
+		// called from there, and on what, is decided on every path by interpreting main (props cliEffects),
+		// which follows function values
+		inMain := s.PkgPath == load.PkgMain
+		run.Check("G-EFF/who-may-call", s.Fn+"→"+s.Callee, s.Pos, inMain && allowed[strings.TrimSuffix(s.Callee, " (used as a value)")], fmt.Sprintf("%s calls %s: the only file-system/process/environment mutators allowed in moq's packages are os.Remove, os.MkdirAll and os.WriteFile, in package main", s.Fn, s.Callee))
 		run.Sample(map[string]string{"effect_site": s.Pos, "function": s.Fn, "callee": s.Callee})
 	}
 	run.Floor("G-EFF/who-may-call", 3)
